@@ -30,6 +30,7 @@ kinds = {
     "codecdiff": "differential encode/decode of every wire/disk format against the Lean codec model",
     "logdiff": "differential operation programs + crash images on the real segmented log against the Lean SegLog/SegDisk model",
     "repldiff": "differential step validation of replication.go's step functions (writeAppendEntriesReq, onAppendEntriesResp, sendInstallSnapReq, onLeaderUpdate) on a real replication object over an in-memory connection against the Lean model Raft.Repl, with request-content monitors",
+    "probelive": "the REAL control flow of replication.replicate() (probe loop, install fall-back, switch to pipelining) run in a goroutine over a scripted in-memory connection against a real follower node, compared exchange by exchange with the Lean model Raft.Repl.probe/replicate; bounded runs with a watchdog so that a spinning loop is reported",
     "conndiff": "differential identity-handshake / lock scenarios over net.Pipe against the Lean connection automaton",
 }
 m = {
